@@ -6,6 +6,7 @@ import (
 	"os"
 	"os/exec"
 	"strings"
+	"syscall"
 	"time"
 )
 
@@ -70,6 +71,9 @@ func Main(replay func(bi int, beh []Step, in *Input, res *Result)) {
 }
 
 func crashLine(out string) string {
+	if strings.HasPrefix(out, "fatal error: child timed out") {
+		return out
+	}
 	for _, l := range strings.Split(out, "\n") {
 		if strings.HasPrefix(l, "panic:") || strings.HasPrefix(l, "fatal error:") {
 			return l
@@ -94,15 +98,32 @@ func child(lo, hi int, in *Input) (*Result, string) {
 	done := make(chan error, 1)
 	go func() { done <- cmd.Wait() }()
 	limit := time.Duration(in.CfgInt("ChildTimeoutS", 240)) * time.Second
+	if v := os.Getenv("MBT_CHILD_TIMEOUT_S"); v != "" {
+		var n int
+		if _, err := fmt.Sscanf(v, "%d", &n); err == nil && n > 0 {
+			limit = time.Duration(n) * time.Second
+		}
+	}
 	select {
 	case err := <-done:
 		if err != nil {
 			return nil, buf.String()
 		}
 	case <-time.After(limit):
-		cmd.Process.Kill()
-		<-done
-		return nil, "fatal error: child timed out (hang)\n" + tail(buf.String())
+		cmd.Process.Signal(syscall.SIGQUIT) // goroutine dump into buf
+		select {
+		case <-done:
+		case <-time.After(3 * time.Second):
+			cmd.Process.Kill()
+			<-done
+		}
+		out := buf.String()
+		if i := strings.Index(out, "goroutine 1 ["); i >= 0 {
+			out = out[i:min(len(out), i+2500)]
+		} else {
+			out = tail(out)
+		}
+		return nil, "fatal error: child timed out (hang)\n" + out
 	}
 	b, err := os.ReadFile(tmp)
 	if err != nil {
